@@ -139,7 +139,20 @@ def build_case(cid, rng):
     if gen_used:
         ARG = ", 7u8" + ARG
     HBDEF = ["pub trait HB<'q> { fn hb(&self) -> &'q str; }", "impl<'q, T> HB<'q> for ::entrait::Impl<T> { fn hb(&self) -> &'q str { \"\" } }"] if hr_used else []
-    D = ["#[derive(Clone, Copy)] pub struct App;"] + HBDEF + L + GT + ["pub fn run() {",
+    # a third of the cases also carry an entraited trait whose methods take the receiver by value (round 19): the delegation goes
+    # through Impl::into_inner there; measured against the direct call on the application and scanned like every other expansion
+    byv = rng.random() < 0.34
+    BYV = ["#[::entrait::entrait] /*@invbv*/\npub trait ByV: ::core::marker::Send { async fn bv(self, x: u64) -> u64; fn bs(self, x: u64) -> u64; }",
+           "impl ByV for App { async fn bv(self, x: u64) -> u64 { let b = ::std::boxed::Box::new(x); ::vrt::yield_once().await; *b + 1 } fn bs(self, x: u64) -> u64 { *::std::boxed::Box::new(x) + 2 } }"] if byv else []
+    BYV_RUN = ["    ::vrt::trace_enabled(false);",
+               "    let b0 = ::vrt::allocs();",
+               "    let q1 = ::vrt::block_on(ByV::bv(app, 5)) + ByV::bs(app, 5);",
+               "    let b1 = ::vrt::allocs();",
+               "    let q2 = ::vrt::block_on(ByV::bv(App, 5)) + ByV::bs(App, 5);",
+               "    let b2 = ::vrt::allocs();",
+               "    ::vrt::trace_enabled(true);",
+               '    ::vrt::fact("byval_trait_allocs", b1 - b0); ::vrt::fact("byval_direct_allocs", b2 - b1); ::vrt::fact("byval_trait_result", q1); ::vrt::fact("byval_direct_result", q2);'] if byv else []
+    D = ["#[derive(Clone, Copy)] pub struct App;"] + HBDEF + L + BYV + GT + ["pub fn run() {",
          "    let app = ::entrait::Impl::new(App);",
          "    match ::std::env::var(\"C14_MODE\").ok().as_deref() {",
          "        Some(\"none\") => return,",
@@ -157,7 +170,7 @@ def build_case(cid, rng):
          "    let a3 = ::vrt::allocs();",
          "    ::vrt::trace_enabled(true);",
          '    ::vrt::fact("trait_allocs", a1 - a0); ::vrt::fact("direct_allocs", a2 - a1); ::vrt::fact("trait_allocs_again", a3 - a2);',
-         '    ::vrt::fact("trait_result", r1); ::vrt::fact("direct_result", r2);',
+         '    ::vrt::fact("trait_result", r1); ::vrt::fact("direct_result", r2);'] + BYV_RUN + [
          "}"]
     return Case(cid, "\n".join(D) + "\n", meta={"depth": depth, "async": is_async, "links": links, "explicit_lifetime": with_lt, "extra_param": (extra[0] if extra else None), "generic_first_link": bool(gen_used), "by_value_first_link": bool(byval_used), "higher_ranked_bound": bool(hr_used), "no_send": no_send,
                                                 "nontrivial": is_async or depth >= 2})
@@ -224,6 +237,14 @@ def run(tier, seed):
             rep.violation(c.id, "allocations:%+d" % (int(f["trait_allocs"]) - int(f["direct_allocs"])),
                           "calling through the generated traits performs %s (%s) heap allocations, the twin chain of plain fns %s (links %s, async %s)" % (
                               f["trait_allocs"], f["trait_allocs_again"], f["direct_allocs"], c.meta["links"], c.meta["async"]))
+        if "byval_direct_allocs" in f:
+            if int(f["byval_direct_allocs"]) < 2:
+                raise core.Inconclusive("direct by-value calls of %s allocated less than expected (%s)" % (c.id, f))
+            rep.bump("by_value_receivers_compared")
+            if f["byval_trait_allocs"] != f["byval_direct_allocs"] or f["byval_trait_result"] != f["byval_direct_result"]:
+                rep.violation(c.id, "by-value-receiver:allocations:%+d" % (int(f["byval_trait_allocs"]) - int(f["byval_direct_allocs"])),
+                              "methods taking `self` by value called through Impl<App> perform %s heap allocations (result %s), called on App %s (result %s)" % (
+                                  f["byval_trait_allocs"], f["byval_trait_result"], f["byval_direct_allocs"], f["byval_direct_result"]))
         rep.bump("chains_compared")
         rep.bump("allocations_observed", int(f["direct_allocs"]))
         for r in c.records:
@@ -252,7 +273,7 @@ def run(tier, seed):
                 raise core.Inconclusive("valgrind saw no allocations in the direct workload of %s" % name)
             if d != t:
                 rep.violation(name, "valgrind-allocations:%+d" % (t - d), "valgrind counts %d allocations for the trait workload, %d for the twin workload" % (t, d))
-    core.floors(rep, chains_compared=n // 2, expansions_scanned=n)
+    core.floors(rep, chains_compared=n // 2, expansions_scanned=n, by_value_receivers_compared=n // 8)
     rep.assumptions = ["the counting allocator's counter is thread-local and tracing is switched off inside the measured region",
                        "debug (unoptimised) builds: equality of counts does not depend on inlining"]
     return rep.finish({c.id: c for c in cases})
